@@ -607,7 +607,7 @@ import subprocess  # noqa: E402
 import sys  # noqa: E402
 import time  # noqa: E402
 
-RCOMP = "/verif/target/repo/debug/rcomp"
+RCOMP = os.path.join(os.path.dirname(os.path.dirname(os.path.abspath(__file__))), "target", "repo", "debug", "rcomp")
 
 
 def build_rcomp(ctx):
